@@ -458,7 +458,7 @@ def next_statement(state: TokenizerState) -> Generator[TokenInfo, None, bool | N
         if column not in state.indents:
             raise IndentationError(
                 "unindent does not match any outer indentation level",
-                ("<tokenize>", state.lnum, state.pos, state.line),
+                ("<tokenize>", state.lnum, state.pos + 1, state.line, state.lnum, state.pos + 1),
             )
         state.indents = state.indents[:-1]
 
